@@ -17,19 +17,30 @@ from vlib import log
 
 SOCKS_SCHEMES = ("tcp", "tcp+pipeline", "tls", "tls+pipeline", "https")
 FAMILY = {"udp": "plain", "tcp": "plain", "tcp+pipeline": "plain", "tls": "tls", "tls+pipeline": "tls",
-          "quic": "tls", "https": "http", "h3": "http"}
+          "quic": "tls", "doq": "tls", "https": "http", "h3": "http"}
+
+
+def pclass(p):
+    return 0 if p == 0 else (2 if p > 65535 else 1)
 
 
 def klass(a):
-    """abstract class of an address: everything except the concrete port numbers and the path"""
-    return (a["scheme"], a["hk"], a["form"], a["port"] != 0, a["dial"], a["dform"])
+    """abstract class of an address: everything except the concrete (valid) port numbers and the path"""
+    return (a["scheme"], a["hk"], a["form"], pclass(a["port"]), a["dial"], a["dform"], pclass(a["dport"]))
+
+
+def klass_loop(a):
+    """coarser (loopback cases run one at a time when they touch ::1): spellings ignored"""
+    return (a["scheme"], a["hk"], pclass(a["port"]), a["dial"], pclass(a["dport"]))
 
 
 def sig(a, what):
     """signature = kind of deviation + the address class that matters for it (not the scheme, spelling or
     concrete numbers), so that one root cause gives a handful of signatures"""
     dial = "none" if a["dial"] == "none" else ("with-port" if a["dport"] else "without-port")
-    s = "%s:host=%s:port=%s:dial_addr=%s" % (what, a["hk"], "set" if a["port"] else "none", dial)
+    if a["dport"] > 65535:
+        dial = "with-bad-port"
+    s = "%s:host=%s:port=%s:dial_addr=%s" % (what, a["hk"], ("none", "set", "above-65535")[pclass(a["port"])], dial)
     if what.startswith("sni"):
         s += ":scheme=" + FAMILY[a["scheme"]]
     return s
@@ -47,8 +58,10 @@ def mk_job(cases, picks):
     for n, pk in enumerate(picks):
         i, mode, variant = pk[:3]
         c = cases[i]
+        grp = pk[3] if len(pk) > 3 else None
         out.append({"id": n, "cid": c.get("cid", n), "a": c["a"], "url": c["url"], "dial": c["dial"], "mode": mode, "variant": variant,
-                    "unasserted": c["unasserted"], "group": pk[3] if len(pk) > 3 else None})
+                    "unasserted": c["unasserted"], "group": None if grp == "refuse" else grp,
+                    "refuse": grp == "refuse", "exp_host": c["exp"]["host"], "exp_port": c["exp"]["port"]})
     return out
 
 
@@ -57,6 +70,8 @@ def judge(ctx, c, r, job_case):
     (signature, text)."""
     a, exp = c["a"], c["exp"]
     where = "%s dial_addr=%r (%s)" % (r["addr"], r["dial_addr"], r["mode"])
+    if job_case.get("refuse"):
+        where += " [nothing listens at the expected destination, decoys do]"
     if job_case.get("group") is not None:
         where += " [one of several upstreams sharing a tls.Config and a bootstrap server]"
     out = []
@@ -64,11 +79,16 @@ def judge(ctx, c, r, job_case):
         return [(sig(a, "panic"), "%s: NewUpstream/Exchange panicked: %s" % (where, r["panic"][:200]))]
     if c["unasserted"]:
         return []
+    if c.get("mustReject"):
+        if r["created"]:
+            out.append((sig(a, "accepted-bad-port"), "%s: a port above 65535 cannot be honoured, yet the upstream was created%s" % (
+                where, "".join("; connected to %s:%d" % (o["host_raw"], o["port"]) for o in r["obs"][:2]))))
+        return out
     if not r["created"]:
         if not c["mayReject"]:
             out.append((sig(a, "rejected"), "%s: a supported address was refused: %s" % (where, r.get("err"))))
         return out
-    if not r["obs"]:
+    if not r["obs"] and not job_case.get("refuse"):
         out.append((sig(a, "no-connection"), "%s: upstream created but no connection reached any candidate "
                     "(expected %s:%d); exchange error: %s" % (where, exp["host"], exp["port"], r.get("exch_err"))))
     for o in r["obs"]:
@@ -120,7 +140,7 @@ def evaluate(ctx, cases, picks, jc, recs):
         for s, text in judge(ctx, c, r, jc[r["id"]]):
             nviol += 1
             ctx.violation(s, text, {"case": jc[r["id"]], "expected": c["exp"], "mayReject": c["mayReject"],
-                                    "unasserted": c["unasserted"], "observed": r})
+                                    "mustReject": c.get("mustReject", False), "unasserted": c["unasserted"], "observed": r})
     # leg C
     traces = [r["events"] for r in good]
     acc, rej = vlib.validate_traces(ctx, "Addr_Trace", "Addr_Trace.cfg", traces, chunk=24000, max_reject=40)
@@ -132,7 +152,7 @@ def evaluate(ctx, cases, picks, jc, recs):
         ctx.violation(s, "real trace is not allowed by Addr.tla's contract (rejected at event %s: %s): %s dial_addr=%r" % (
             info.get("line_in_trace"), info.get("event"), r["addr"], r["dial_addr"]),
             {"case": jc[r["id"]], "expected": c["exp"], "mayReject": c["mayReject"],
-             "unasserted": c["unasserted"], "observed": r})
+             "mustReject": c.get("mustReject", False), "unasserted": c["unasserted"], "observed": r})
     # dead-driver check last (guide rule 9): only when nothing was rejected
     if not ctx.violations and not ctx.known_hits and len(skipped) + len(inconcl) > max(5, len(recs) // 20):
         raise vlib.Infra("too many unobservable cases: %d skipped (%s), %d inconclusive (%s)" % (
@@ -145,8 +165,8 @@ def replay(ctx):
     d = json.load(open(ctx.replay))["replay"]
     binary = vlib.go_build(ctx, "drv_addr")
     case = {"cid": d["case"].get("cid", 0), "a": d["case"]["a"], "url": d["case"]["url"], "dial": d["case"]["dial"], "exp": d["expected"],
-            "mayReject": d["mayReject"], "unasserted": d["unasserted"]}
-    picks = [(0, d["case"]["mode"], d["case"]["variant"])] * 3
+            "mayReject": d["mayReject"], "mustReject": d.get("mustReject", False), "unasserted": d["unasserted"]}
+    picks = [(0, d["case"]["mode"], d["case"]["variant"]) + (("refuse",) if d["case"].get("refuse") else ())] * 3
     if d["case"].get("group") is not None:
         log("note: this case ran as a member of a group; --replay re-runs it alone (re-run the tier to reproduce a sibling effect)")
     jc, recs = drive(ctx, binary, [case], picks)
@@ -161,8 +181,8 @@ def run(ctx):
     T = ctx.thorough()
     rng = random.Random(ctx.seed)
     ctx.assumptions += [
-        "address forms = the property's quantifier: 8 schemes x {v4, name, IPv6 bare/bracketed in 3 spellings} x "
-        "{no port, 6 ports} x {no dial_addr, ip4, ip6 (2 spellings), ip4:port, [ip6]:port, host} x {path, none}",
+        "address forms = the property's quantifier: 9 schemes (incl. the doq alias) x {v4, name, IPv6 bare/bracketed in 3 "
+        "spellings} x {no port, 5 ports, 2 ports above 65535 (must be refused)} x {no dial_addr, ip4, ip6 (2 spellings), ip4:port, [ip6]:port, host} x {path, none}",
         "bare IPv6 followed by :port is ambiguous (RFC 3986 demands brackets): run for panics only, nothing asserted",
         "tcp/tls/https are observed through opt.Socks5 (CONNECT target) and directly on loopback; udp/quic/h3 only "
         "with loopback literals (127.a.b.c, ::1) or names resolved to loopback by a harness bootstrap server",
@@ -177,22 +197,24 @@ def run(ctx):
                 label="design (exact bracket trimming, dial_addr keeps URL port) meets the C18 contract, full product")
     nv = vlib.run_tlc(ctx, "Addr", "Addr_pinned.cfg", expect_violation=True, workers=1)
     nv2 = vlib.run_tlc(ctx, "Addr", "Addr_pinned_port.cfg", expect_violation=True, workers=1)
-    if nv["violated"] != "C18Inv" or nv2["violated"] != "C18Inv":
-        raise vlib.Infra("non-vacuity runs: expected C18Inv to fail, got %r / %r" % (nv["violated"], nv2["violated"]))
+    nv3 = vlib.run_tlc(ctx, "Addr", "Addr_pinned_bigport.cfg", expect_violation=True, workers=1)
+    if nv["violated"] != "C18Inv" or nv2["violated"] != "C18Inv" or nv3["violated"] != "C18Inv":
+        raise vlib.Infra("non-vacuity runs: expected C18Inv to fail, got %r / %r / %r" % (
+            nv["violated"], nv2["violated"], nv3["violated"]))
     ctx.cov["non_vacuity"] = ("C18Inv is violated by TLC for TrimCut=2 (D8, Addr_pinned.cfg) and for "
-                              "DialPortRule=default (D12, Addr_pinned_port.cfg)")
+                              "DialPortRule=default (D12, Addr_pinned_port.cfg) and for PortCheck=FALSE (Addr_pinned_bigport.cfg)")
 
     # ---- leg B generator: the whole product with Expected
     cases = vlib.tlc_behaviours(ctx, "Addr", "Addr_gen.cfg")
-    if len(cases) < 20000:
+    if len(cases) < 29000:
         raise vlib.Infra("generator exported only %d cases" % len(cases))
     socks_idx = [i for i, c in enumerate(cases) if c["a"]["scheme"] in SOCKS_SCHEMES]
     loop_idx = [i for i, c in enumerate(cases) if loop_ok(c["a"])]
 
-    def stratified(idx, per_class):
+    def stratified(idx, per_class, key=klass):
         by = {}
         for i in idx:
-            by.setdefault(klass(cases[i]["a"]), []).append(i)
+            by.setdefault(key(cases[i]["a"]), []).append(i)
         out = []
         for k in sorted(by):
             l = by[k]
@@ -202,22 +224,22 @@ def run(ctx):
 
     picks = []
     if T:
-        # full product through the proxy (two concretizations); on loopback every abstract class 12 times
+        # full product through the proxy (two concretizations); on loopback every (coarse) abstract class 6 times
         # (all cases touching ::1 run one at a time, the full product would take ~15 min)
         for v in range(2):
             picks += [(i, "socks", v) for i in socks_idx]
-        picks += [(i, "loop", rng.randrange(6)) for i in stratified(loop_idx, 12)]
+        picks += [(i, "loop", rng.randrange(6)) for i in stratified(loop_idx, 6, klass_loop)]
     else:
-        picks += [(i, "socks", rng.randrange(6)) for i in stratified(socks_idx, 3)]
-        picks += [(i, "loop", rng.randrange(6)) for i in stratified(loop_idx, 1)]
+        picks += [(i, "socks", rng.randrange(6)) for i in stratified(socks_idx, 2)]
+        picks += [(i, "loop", rng.randrange(6)) for i in stratified(loop_idx, 1, klass_loop)]
     # ---- groups: several upstreams of one configuration (shared *tls.Config, shared bootstrap server);
     # the contract is per address, siblings must not matter
     def effport(i):
         return cases[i]["exp"]["port"]
     tls_pool = [i for i in socks_idx if cases[i]["a"]["scheme"] in ("tls", "tls+pipeline", "https")
-                and not cases[i]["unasserted"] and not cases[i]["mayReject"]]
-    boot_pool = [i for i, c in enumerate(cases) if c["a"]["hk"] == "name" and c["a"]["dial"] == "none"
-                 and c["a"]["scheme"] in ("tls", "tls+pipeline", "https", "quic", "h3")]
+                and not cases[i]["unasserted"] and not cases[i]["mayReject"] and not cases[i]["mustReject"]]
+    boot_pool = [i for i, c in enumerate(cases) if c["a"]["hk"] == "name" and c["a"]["dial"] == "none" and not c["mustReject"]
+                 and c["a"]["scheme"] in ("tls", "tls+pipeline", "https", "quic", "doq", "h3")]
     gpicks, gid = [], 0
     for _ in range(400 if T else 40):
         # different URL hosts (names differ by variant, literals by case), one tls.Config
@@ -231,6 +253,16 @@ def run(ctx):
         gpicks += [(i, "loop", v, gid) for i in [a] + rng.sample(others, 2)]
         gid += 1
 
+    # ---- fault cases on loopback: the expected destination refuses, every other candidate listens
+    fault_pool = [i for i in loop_idx if not cases[i]["unasserted"] and not cases[i]["mayReject"] and not cases[i]["mustReject"]]
+    by = {}
+    for i in fault_pool:
+        by.setdefault((cases[i]["a"]["scheme"], cases[i]["a"]["dial"]), []).append(i)
+    fpicks = []
+    for k in sorted(by):
+        fpicks += [(i, "loop", rng.randrange(6), "refuse") for i in rng.sample(by[k], min(len(by[k]), 12 if T else 2))]
+    gpicks += fpicks
+
     # unasserted addresses are only smoke-run (they cost a timeout each)
     un = [p for p in picks if cases[p[0]]["unasserted"]]
     rng.shuffle(un)
@@ -240,7 +272,8 @@ def run(ctx):
     picks += gpicks
     log("running %d cases (%d socks, %d loop) of %d exported" % (
         len(picks), sum(1 for p in picks if p[1] == "socks"), sum(1 for p in picks if p[1] == "loop"), len(cases)))
-    log("of these %d run as %d groups of 3 upstreams sharing one tls.Config / bootstrap server" % (len(gpicks), gid))
+    log("%d loopback cases run with a refusing expected destination" % len(fpicks))
+    log("of these %d run as %d groups of 3 upstreams sharing one tls.Config / bootstrap server" % (len(gpicks) - len(fpicks), gid))
 
     binary = vlib.go_build(ctx, "drv_addr")
     jc, recs = drive(ctx, binary, cases, picks)
